@@ -3,7 +3,7 @@
 #   level 1: /repo/hashmap.c linked unmodified (ASan+UBSan) into histsim.c, seeded histories vs a dictionary
 #   level 2: real `chibicc -E` on generated -D/-U/#define/#undef histories with probes, vs a python dict
 import concurrent.futures as cf
-import json, os, shutil, subprocess, sys, time
+import json, os, re, shutil, subprocess, sys, time
 
 sys.path.insert(0, os.path.join(os.path.dirname(os.path.abspath(__file__)), "..", "common"))
 from vcommon import *
@@ -311,6 +311,12 @@ def l2_gen(seed, families, big):
             else:
                 ops.append(["src", "def", n, body(n), 0])
         elif x < wdef + wundef:
+            if r.below(10) == 0:
+                # a directive on a line of its own INSIDE the argument list of a macro call (undefined behaviour in ISO C, accepted
+                # by every compiler): the call's text and the target's state afterwards are not predicted -- the compiler must
+                # survive it, and every other name must be unaffected
+                ops.append(["src", "argdir", n, None if r.below(2) else str(uniq[0] + 700000), r.below(4)])
+                continue
             if r.below(8) == 0:
                 # #pragma push_macro / pop_macro: saved and restored definitions (undefinedness included) where the compiler
                 # implements them, nothing at all where it ignores the pragma -- the harness asks the compiler which it is
@@ -351,7 +357,7 @@ def l2_render(plan):
     model = dict((k, ("obj", v)) for k, v in PREDEF_BODY.items())
     for k in PREDEF_DYNAMIC:
         model[k] = ("dyn", None)   # what they expand to is not modelled; that they are defined, and stop being special once redefined, is
-    args, src, exp = [], ["#define CAT_(a,b) a##b", "#define XCAT_(a,b) CAT_(a,b)"], []
+    args, src, exp = [], ["#define CAT_(a,b) a##b", "#define XCAT_(a,b) CAT_(a,b)", "#define ARGDIR_(x) x"], []
     inc = [[], []]   # up to two files given with -include: processed after every -D / -U, in command-line order, before the source
     pid = 0
     stacks = {}
@@ -381,6 +387,13 @@ def l2_render(plan):
                 val = n if b is None else n + "=" + b
                 args += ["-D", val] if sep else ["-D" + val]
                 model[n] = ("obj", "1" if b is None else b)
+            continue
+        if kind == "argdir":
+            pid += 1
+            callee = n if (sep % 2 and model.get(n, ("", ""))[0] == "fn1") else "ARGDIR_"
+            d = "#undef %s" % n if b is None else ("#define %s %s" % (n, b) if sep < 2 else "#define %s(q) %s q" % (n, b))
+            src.append('"Z" %d %s(\n%s\n7) ;' % (pid, callee, d))
+            model[n] = ("unk", None)
             continue
         if kind in ("push", "pop"):
             src.append('#pragma %s_macro("%s")' % (kind, n))
@@ -416,6 +429,8 @@ def l2_render(plan):
         elif kind == "undef":
             src.append("#undef %s" % n)
             model.pop(n, None)
+        elif model.get(n, ("", ""))[0] == "unk":
+            continue        # the state of this name is not predicted (see argdir) until it is defined or undefined again
         else:
             pid += 1
             d = n in model
@@ -493,6 +508,12 @@ def norm(line):
     return " ".join(line.replace("(", " ( ").replace(")", " ) ").replace(",", " , ").replace("=", " = ").split())
 
 
+def pick_cc(cc, k):
+    """exploration alternates between the plain build (fast) and the AddressSanitizer build (sees memory errors)"""
+    pl = cc + ".plain"
+    return pl if (k % 3 and os.path.exists(pl)) else cc
+
+
 def l2_exec(cc, sdir, wid, plan):
     """returns (class, detail) ; class None when the output equals the model's"""
     args, src, exp, incs = l2_render(plan)
@@ -520,9 +541,11 @@ def l2_exec(cc, sdir, wid, plan):
         return "hang", "chibicc -E did not finish within 60 s"
     if p.returncode != 0:
         err = p.stderr.decode(errors="replace")
-        cls = "abort" if ("Assertion" in err or "internal error" in err or p.returncode < 0 or not err.strip()) else "rejected"
+        cls = "abort" if ("Assertion" in err or "internal error" in err or "AddressSanitizer" in err or p.returncode < 0 or not err.strip()) else "rejected"
         return cls, "exit status %d: %s" % (p.returncode, err[-400:])
-    got = [norm(l) for l in p.stdout.decode(errors="replace").splitlines() if l.strip()]
+    # only probe lines count: what a call with a directive inside its argument list expands to ("Z" lines and whatever they
+    # drag along) is not predicted
+    got = [norm(l) for l in p.stdout.decode(errors="replace").splitlines() if re.match(r'\s*"[DUTFXC]"', l)]
     want = [norm(l) for l in exp]
     if got == want:
         return None, ""
@@ -579,7 +602,7 @@ def l2_worker(cc, sdir, wid, master, start, step, total, families, big_every, de
         seed = mix(master ^ 0x1E7E12, i)
         big = big_every and (i % big_every == big_every - 1)
         plan = l2_gen(seed, families, big)
-        cls, detail = l2_exec(cc, sdir, wid, plan)
+        cls, detail = l2_exec(pick_cc(cc, i), sdir, wid, plan)
         res["runs"] += 1
         res["ops"] += len(plan["ops"])
         res["big"] += 1 if big else 0
@@ -796,6 +819,28 @@ def l3_gen(seed, families):
     nfile = r.range(0, nnames)
     for n in r.sample(names, nfile):
         declare(n, True)
+    # one object declared several times at file scope -- tentative definitions, extern declarations and at most one
+    # definition with an initializer, in any order, some of them after the last function: exactly one object must come out,
+    # holding the initializer if there is one. (Several tentative definitions and nothing else are not generated: the pinned
+    # chibicc drops all of them, which is a matter of the language's tentative-definition rule, not of a name table.)
+    tent_post, tent_probe = [], []
+    for k in range(r.pick([0, 0, 1, 2, 4])):
+        tn = "tn%d_%d" % (seed % 1000, k)
+        st = "static " if r.below(4) == 0 else ""
+        v = val()
+        if r.below(3):
+            decls = ["%sint %s = %d;" % (st, tn, v)] + [r.pick(["%sint %s;" % (st, tn), "extern int %s;" % tn] if not st else ["static int %s;" % tn]) for _ in range(r.range(1, 3))]
+            expect = v
+        else:
+            decls = ["%sint %s;" % (st, tn)] + (["extern int %s;" % tn for _ in range(r.range(0, 2))] if not st else [])
+            expect = 0
+        order = r.sample(decls, len(decls))
+        if st and not order[0].startswith("static"):
+            order.sort(key=lambda d: not d.startswith("static"))
+        lines.append(order[0])
+        for d in order[1:]:
+            (lines if r.below(2) else tent_post).append(d)
+        tent_probe.append((tn, expect))
     labels = set()
     kinds = []      # 'block' or 'for' (a for statement opens two scopes: its declaration and its body)
     decoys = [0]
@@ -874,6 +919,9 @@ def l3_gen(seed, families):
     tags.append({})
     for f in funcs:
         lines.append("  " + f)
+    for tn, expect in tent_probe:
+        lines.append("  line = line ? line : ((%s) != %d ? __LINE__ : 0);" % (tn, expect))
+        probes += 1
     nops = r.pick([10, 30, 80]) if not big else r.range(400, 1200)
     body(nops)
     for n in (names if not big else r.sample(names, 80)):
@@ -882,6 +930,7 @@ def l3_gen(seed, families):
         close_one()
     lines.append("  return line ? (line %% 250) + 1 : 0;" .replace("%%", "%"))
     lines.append("}")
+    lines += tent_post
     return "\n".join(lines) + "\n", probes, big
 
 
@@ -970,7 +1019,7 @@ def l3_l4_worker(cc, sdir, wid, master, start, step, families, deadline):
             src = "\n".join(src_lines) + "\n"
             with open(os.path.join(wd, "inc.c"), "w") as f:
                 f.write(src)
-            p = subprocess.run([cc, "-E", "-I" + os.path.join(wd, "twi"), os.path.join(wd, "inc.c")], stdout=subprocess.PIPE, stderr=subprocess.PIPE)
+            p = subprocess.run([pick_cc(cc, i), "-E", "-I" + os.path.join(wd, "twi"), os.path.join(wd, "inc.c")], stdout=subprocess.PIPE, stderr=subprocess.PIPE)
             res["l4_twin_headers"] = res.get("l4_twin_headers", 0) + twins
             res["l4_runs"] += 1
             res["l4_headers"] += len(hdrs)
@@ -994,7 +1043,7 @@ def l3_l4_worker(cc, sdir, wid, master, start, step, families, deadline):
         with open(cfile, "w") as f:
             f.write(src)
         exe = os.path.join(wd, "p.exe")
-        p = subprocess.run([cc, "-c", cfile, "-o", os.path.join(wd, "p.o")], stdout=subprocess.PIPE, stderr=subprocess.PIPE)
+        p = subprocess.run([pick_cc(cc, i), "-c", cfile, "-o", os.path.join(wd, "p.o")], stdout=subprocess.PIPE, stderr=subprocess.PIPE)
         res["l3_runs"] += 1
         res["l3_probes"] += probes
         res["l3_big"] += 1 if big else 0
@@ -1004,7 +1053,7 @@ def l3_l4_worker(cc, sdir, wid, master, start, step, families, deadline):
         cls, detail = None, ""
         if p.returncode != 0:
             err = p.stderr.decode(errors="replace")
-            cls = "abort" if ("Assertion" in err or "internal error" in err or not err.strip()) else "scope-lookup-rejected"
+            cls = "abort" if ("Assertion" in err or "internal error" in err or "AddressSanitizer" in err or not err.strip()) else "scope-lookup-rejected"
             detail = "chibicc -c exit %d: %s" % (p.returncode, err[-400:])
         else:
             q = subprocess.run(["gcc", "-o", exe, os.path.join(wd, "p.o")], stdout=subprocess.PIPE, stderr=subprocess.STDOUT)
@@ -1088,7 +1137,17 @@ def main(argv):
     stats = {}
     sdir = scratch("verif-c17")
     try:
-        cc = build_chibicc(os.path.join(sdir, "src"))
+        # levels 2-4 run the compiler itself; it is built with AddressSanitizer so that a table entry used after it was
+        # freed, or read past its end, stops the run instead of going unnoticed (falls back to the plain build if that fails)
+        os.environ["ASAN_OPTIONS"] = "detect_leaks=0:strict_memcmp=0:exitcode=77:allocator_may_return_null=1"
+        try:
+            cc = build_chibicc(os.path.join(sdir, "src"), extra_cflags="-fsanitize=address -fno-omit-frame-pointer")
+            stats["compiler_under_test_built_with"] = "AddressSanitizer for every third history of levels 2-4 and for every re-execution (gates, minimisation, replay); the plain build for the rest"
+            shutil.copy(build_chibicc(os.path.join(sdir, "src_plain")), cc + ".plain")
+        except BuildError:
+            shutil.rmtree(os.path.join(sdir, "src"), ignore_errors=True)
+            cc = build_chibicc(os.path.join(sdir, "src"))
+            stats["compiler_under_test_built_with"] = "plain (the AddressSanitizer build failed)"
         exe, internals = build_harness(os.path.join(sdir, "src"), os.path.join(sdir, "h"))
     except BuildError as e:
         print("HARNESS-ERROR property=%s cannot build: %s" % (PROP, e))
